@@ -1728,6 +1728,15 @@ def _make_configurable(fn_or_cls,
   _validate_parameters(fn_or_cls, allowlist, 'allowlist')
   _validate_parameters(fn_or_cls, denylist, 'denylist')
 
+  # Check signature-level REQUIRED parameters against the lists before decorating:
+  # decorating a class already updates the registry (registered methods are
+  # renamed under the class), which a rejected registration must not do.
+  signature_fn = fn_or_cls
+  if inspect.isclass(fn_or_cls):
+    signature_fn = _find_class_construction_fn(fn_or_cls)
+  _get_validated_required_kwargs(
+      signature_fn, "'{}' ('{}')".format(name, fn_or_cls), allowlist, denylist)
+
   def decorator(fn):
     """Wraps `fn` so that it obtains parameters from the configuration."""
     return _make_gin_wrapper(fn, fn_or_cls, name, selector, allowlist,
